@@ -426,12 +426,23 @@ func ruleWhatIfOnDuplicate(c *Ctx) {
 	methods := []string{"objects.QueuePreemptionSnapshot.AddAllocation", "objects.QueuePreemptionSnapshot.RemoveAllocation",
 		"objects.QueuePreemptionSnapshot.GetRemainingGuaranteedResource", "objects.QueuePreemptionSnapshot.GetPreemptableResource"}
 	n := 0
+	// the functions that build the duplicate: whatever (method or function) calls QueuePreemptionSnapshot.Duplicate
+	var dupFns []string
+	for _, fn := range p.funcs {
+		if fn.Decl.Body != nil && fn.Name != "objects.QueuePreemptionSnapshot.Duplicate" && len(p.callsInShallow(fn, "objects.QueuePreemptionSnapshot.Duplicate")) > 0 {
+			dupFns = append(dupFns, fn.Name)
+		}
+	}
+	if len(dupFns) == 0 {
+		c.Check("C08.j", "anchor: a function that duplicates the queue snapshots", nil, false, "no function calls QueuePreemptionSnapshot.Duplicate any more")
+		return
+	}
 	for _, fn := range p.funcs {
 		if fn.Decl.Body == nil || !p.methodOf(fn, "objects.Preemptor") {
 			continue
 		}
 		dups := map[interface{}]bool{}
-		for _, call := range p.callsInShallow(fn, "objects.Preemptor.duplicateQueueSnapshots") {
+		for _, call := range p.callsInShallow(fn, dupFns...) {
 			if as, ok := p.Parent(call).(*ast.AssignStmt); ok && len(as.Lhs) == 1 {
 				if id, isID := as.Lhs[0].(*ast.Ident); isID {
 					dups[p.ObjOf(id)] = true
